@@ -73,24 +73,26 @@ NOT_YET = {}
 
 # families added after the seeded-change rounds (appended to the level text)
 ADDED = {
- "C01": "Added since: non-monotone coordinate rotations in updateCoords, element-operand arithmetic through references, fiber assignment from an unordered source, interior operations on depth-2 trees.",
- "C02": "Added since: populate bodies that only touch an offered sub-fiber, swizzle of the top two ranks of a 3-rank tensor, re-rooting a populated tensor with a slice of its own root, and the rejoin family (a sub-tree detached from one tensor joins another: owners of every stored sub-fiber, empty ones included, must follow).",
- "C03": "Added since: fiber assignment through the handle of a partial point, -=, trees with a non-zero leaf default over fibers built with default 0, empty interior fibers at depth 3, read-only histories.",
- "C04": "Added since: operands with different leaf defaults, literal zeros stored under a non-zero default; operands are snapshotted (including their memoised active range) around every operator use.",
- "C05": "Added since: accumulate from a tensor whose upper rank is uncompressed.",
+ "C01": "Added since: non-monotone coordinate rotations in updateCoords, element-operand arithmetic through references, fiber assignment from an unordered source, interior operations on depth-2 trees. Round 4: operand fibers stay alive across later operations and no two fibers (of the tree or kept operands) may share a coordinate or payload list object.",
+ "C02": "Added since: populate bodies that only touch an offered sub-fiber, swizzle of the top two ranks of a 3-rank tensor, re-rooting a populated tensor with a slice of its own root, and the rejoin family (a sub-tree detached from one tensor joins another: owners of every stored sub-fiber, empty ones included, must follow). Round 4: read-only binary operations (==, !=, | ^ & - traversed to the leaves) between the roots of every ordered pair of T2(2,2) tensors leave both tensors' rank lists unchanged.",
+ "C03": "Added since: fiber assignment through the handle of a partial point, -=, trees with a non-zero leaf default over fibers built with default 0, empty interior fibers at depth 3, read-only histories. Round 4: float leaf default 0.5 with the full write alphabet (a handle may not alias the rank's default box).",
+ "C04": "Added since: operands with different leaf defaults, literal zeros stored under a non-zero default; operands are snapshotted (including their memoised active range) around every operator use. Round 4: every lazy operator result (binary and n-ary) is traversed twice.",
+ "C05": "Added since: accumulate from a tensor whose upper rank is uncompressed. Round 4: float leaf default 0.5 destinations; sources owned by a tensor whose leaf default (7) differs from the default their fibers were built with (stored zeros are values).",
  "C06": "Added since: two wide-output aliases over {-1,0,1} (cancellation followed by a smaller new output coordinate), 3-operand / 3-rank expressions (sum3, ttv, matmul-scale).",
- "C07": "Added since: negative steps for iterRangeShape; the operand snapshot around every traversal includes the memoised active range.",
- "C08": "Added since: / k with a declared shape and every explicit active range (the partition count refers to the shape), relative-coordinate partitions' active ranges.",
+ "C07": "Added since: negative steps for iterRangeShape; the operand snapshot around every traversal includes the memoised active range. Round 4: observe - edit - observe (nine traversals, one public edit: insert / set to default / append beyond the end, the same traversals again).",
+ "C08": "Added since: / k with a declared shape and every explicit active range (the partition count refers to the shape), relative-coordinate partitions' active ranges. Round 4: split - edit - split with the same parameters (first result unchanged, second against the oracle on the edited cells); split boundaries given as a Fiber; the upper level of a split (its active range, re-split of the upper level).",
  "C09": "Added since: second-generation programs of length 2-3 on 3- and 4-rank tensors with pairwise distinct extents (split of a split, flatten tuple/pair with levels up to 3, unflatten, swizzle, swap), inverse permutation and linear re-flatten of the restored tensor.",
- "C10": "Added since: second-generation operations (flatten / merge / swizzle of a flattened tensor, split of a split), deep-frozen snapshots including rank-id and shape lists.",
- "C11": "Added since: two in-place fiber forms in a row, later update of a value-returning result must not reach the operands, fiber/scalar forms under leaf default 7, floats one ulp apart.",
+ "C10": "Added since: second-generation operations (flatten / merge / swizzle of a flattened tensor, split of a split), deep-frozen snapshots including rank-id and shape lists. Round 4: flatten / merge / swap below the top rank of 3-rank tensors (tensor and fiber level); tensors created empty without a declared shape and filled through references.",
+ "C11": "Added since: two in-place fiber forms in a row, later update of a value-returning result must not reach the operands, fiber/scalar forms under leaf default 7, floats one ulp apart. Round 4: value-returning compositions are demanded like the in-place ones, also with a left operand without declared shape; NaN and infinities in the value set.",
  "C12": "Added since: trees completed after construction (append / extend / position assignment), tensors whose leaf default differs from the default their fibers were built with, observe - mutate in place - observe sequences.",
+ "C13": "Added since: convert - edit - convert (uncompress and dump, rewrite one point through a reference, uncompress and dump again); leaf default None.",
+ "C17": "Added since: both list orders of two bindings for the families with writes in the quick tier.",
  "C14": "Added since: the second-generation programs of C09 (rank ids, authoritative shape, every coordinate inside shape and active range after each step), populate into a destination with an explicit range.",
- "C15": "Added since: populate_read / populate_write registrations on the outermost output rank, operands with explicit defaults and empty sub-fibers, the union-assign kernel, sessions that were never ended or whose consumable trace was never consumed (11 sessions).",
- "C16": "Added since: populate into a non-empty compressed and into an uncompressed destination (position simulation), the projected-populate idiom executed per row of an outer loop, tuple-coordinate upper rank, every trace registered alone must give the same rows.",
+ "C15": "Added since: populate_read / populate_write registrations on the outermost output rank, operands with explicit defaults and empty sub-fibers, the union-assign kernel, sessions that were never ended or whose consumable trace was never consumed (11 sessions). Round 4: a registered iter trace must exist and report 0 for a rank the kernel never reaches; report objects handed out by earlier sessions are re-read after later sessions.",
+ "C16": "Added since: populate into a non-empty compressed and into an uncompressed destination (position simulation), the projected-populate idiom executed per row of an outer loop, tuple-coordinate upper rank, every trace registered alone must give the same rows. Round 4: both trace modes (file and consumable) for the same rank and type in both registration orders.",
  "C18": "Added since: tensors carrying their own U formats, split (second-generation) tensors whose uncompressed upper fibers have an active range narrower than the shape, query - insert - query with the same Format object.",
- "C19": "Added since: a third payload valuation with explicit zeros must give the same swap count, siblings of unequal width (T3(2,4,1)) in the quick tier, the same trace lists are fed to every model in turn (a model may not consume its input).",
- "C20": "Added since: every ordered query sequence on one encoding (lookup history), lock-step interleaved scans of two encoded fibers, mask lengths at word boundaries.",
+ "C19": "Added since: a third payload valuation with explicit zeros must give the same swap count, siblings of unequal width (T3(2,4,1)) in the quick tier, the same trace lists are fed to every model in turn (a model may not consume its input). Round 4: intersections inside 2-3 enclosing loops, every nest shape and batching granularity (deep_nest).",
+ "C20": "Added since: every ordered query sequence on one encoding (lookup history), lock-step interleaved scans of two encoded fibers, mask lengths at word boundaries. Round 4: one Codec object encoding a sequence of tensors / shape arguments (codec-reuse); tensors with a non-zero leaf default (codec-default).",
 }
 
 def main():
